@@ -243,6 +243,49 @@ fn files_dump(out_dir: &Path, want_text: bool) -> String {
     out
 }
 
+/// tokens as the Coq parser model sees them: (id "s") (int Z) (str "s") (p "c") (g delim ...)
+fn syntax_tokens(ts: proc_macro2::TokenStream) -> String {
+    use proc_macro2::{Delimiter, TokenTree};
+    let tts: Vec<TokenTree> = ts.into_iter().collect();
+    let mut out = String::new();
+    let mut i = 0;
+    while i < tts.len() {
+        out.push(' ');
+        match &tts[i] {
+            TokenTree::Ident(id) => out += &format!("(id {})", quote(&id.to_string())),
+            TokenTree::Punct(p) => {
+                // syn reads `-` followed by an integer literal as one (negative) LitInt
+                if p.as_char() == '-' {
+                    if let Some(TokenTree::Literal(l)) = tts.get(i + 1) {
+                        if let Ok(syn::Lit::Int(li)) = syn::parse_str::<syn::Lit>(&l.to_string()) {
+                            out += &format!("(int -{})", li.base10_digits());
+                            i += 2;
+                            continue;
+                        }
+                    }
+                }
+                out += &format!("(p {})", quote(&p.as_char().to_string()));
+            }
+            TokenTree::Literal(l) => match syn::parse_str::<syn::Lit>(&l.to_string()) {
+                Ok(syn::Lit::Int(li)) => out += &format!("(int {})", li.base10_digits()),
+                Ok(syn::Lit::Str(s)) => out += &format!("(str {})", quote(&s.value())),
+                _ => out += &format!("(other {})", quote(&l.to_string())),
+            },
+            TokenTree::Group(g) => {
+                let d = match g.delimiter() {
+                    Delimiter::Parenthesis => "paren",
+                    Delimiter::Brace => "brace",
+                    Delimiter::Bracket => "bracket",
+                    Delimiter::None => "none",
+                };
+                out += &format!("(g {}{})", d, syntax_tokens(g.stream()));
+            }
+        }
+        i += 1;
+    }
+    out
+}
+
 fn main() {
     std::panic::set_hook(Box::new(|info| {
         let loc = info
@@ -298,6 +341,40 @@ fn main() {
                     Err(_) => "panic",
                 };
                 writeln!(out, "{}", w).unwrap();
+            }
+        }
+        Some("syntax") => {
+            // input: a sequence of (type "text") / (attrs "text"); output per line:
+            //   (res REAL (toks TOKENS...))   REAL = (ok AST) | err
+            let input = std::fs::read_to_string(&args[2]).expect("read");
+            let items = sexp::parse(&input).expect("parse");
+            let mut out = std::io::BufWriter::new(std::fs::File::create(&args[3]).expect("create output"));
+            for it in &items {
+                let l = it.list().unwrap();
+                let kind = l[0].atom().unwrap();
+                let text = String::from_utf8_lossy(l[1].string().unwrap()).into_owned();
+                let toks = match text.parse::<proc_macro2::TokenStream>() {
+                    Ok(ts) => format!("(toks{})", syntax_tokens(ts)),
+                    Err(_) => "lexerror".to_string(),
+                };
+                let real = match kind {
+                    "type" => match catch_unwind(AssertUnwindSafe(|| syn::parse_str::<pyxis::grammar::Type>(&text))) {
+                        Ok(Ok(t)) => format!("(ok {})", ast::ty(&t)),
+                        Ok(Err(_)) => "err".to_string(),
+                        Err(_) => "panic".to_string(),
+                    },
+                    _ => match catch_unwind(AssertUnwindSafe(|| pyxis::parser::parse_str(&format!("{} type T;", text)))) {
+                        Ok(Ok(m)) => match m.definitions.first().map(|d| &d.inner) {
+                            Some(pyxis::grammar::ItemDefinitionInner::Type(td)) if m.definitions.len() == 1 => {
+                                format!("(ok {})", ast::attrs_sexp(&td.attributes))
+                            }
+                            _ => "err".to_string(),
+                        },
+                        Ok(Err(_)) => "err".to_string(),
+                        Err(_) => "panic".to_string(),
+                    },
+                };
+                writeln!(out, "(res {} {})", real, toks).unwrap();
             }
         }
         Some("snippets") => {
